@@ -585,7 +585,7 @@ theorem lineLoop_total (X : Ctx) (F : SegFacts src segs) (Z : ∀ s ∈ segs, s.
         obtain ⟨v', c', q1, q2, q3⟩ := r2
         obtain ⟨st2, c2, g1, g2, g3⟩ := endOfLine_total X F Z (flags := (classify line).2) q1
         simp only [BlockReader.position, hI.rs.abs.line, ← q3, g1]
-        exact ih s'.escaped st2 c2 g2 (by omega)
+        exact ih false st2 c2 g2 (by omega)
 
 /-! ### the whole phase -/
 
